@@ -105,7 +105,7 @@ class Recorder:
         self.full_affinity = None if full_affinity is None else np.asarray(full_affinity, dtype=float)
         self.affid = bool(self.full_affinity is not None and self.full_affinity.shape == (n, n)
                           and np.array_equal(self.full_affinity, id_affinity(n)))
-        self.ids_mode = "column"
+        self.ids_mode = "match"
         self.d_hint = d
         self.groups_hint = complete_groups(getattr(model, "groups", None), d) if d else None
         self.t = 0
@@ -279,8 +279,8 @@ def coherence(m, X, y=None, after_path=False):
         pred = np.asarray(m.predict(X))
         if not np.array_equal(pred, P.argmax(1)):
             bad.append("predict != argmax predict_proba")
-        if not np.array_equal(pred, lab):
-            bad.append("predict(training data) != labels_")
+        if not after_path and not np.array_equal(pred, lab):          # path() documents nothing about labels_ (it keeps those
+            bad.append("predict(training data) != labels_")          # of its initial fit); only fit is judged here
         g = m.get_gemini()
         A = g.compute_affinity(X, y)
         sc = m.score(X, y)
@@ -289,6 +289,15 @@ def coherence(m, X, y=None, after_path=False):
             bad.append(f"score {sc} != gemini(predict_proba) {ref}")
         if not isinstance(sc, float):
             bad.append(f"score is {type(sc).__name__}, not float")
+        if y is None:
+            # the score of OTHER data of the same size is the GEMINI of the predictions on that data
+            X2 = np.asarray(X, dtype=float)[::-1] * 0.5 + 0.25
+            P2 = np.asarray(m.predict_proba(X2))
+            if np.all(np.isfinite(P2)):
+                ref2 = float(g(P2, g.compute_affinity(X2, None)))
+                sc2 = m.score(X2)
+                if not (abs(sc2 - ref2) <= 1e-9 * max(1, abs(ref2))):
+                    bad.append(f"score on other data of the same size {sc2} != gemini(predict_proba) {ref2}")
     if getattr(m, "n_iter_", None) != m.max_iter:
         bad.append(f"n_iter_={getattr(m, 'n_iter_', None)} max_iter={m.max_iter}")
     want = "SGDOptimizer" if (m.solver == "sgd" or after_path) else "AdamOptimizer"     # path() re-trains with SGD by design
@@ -308,7 +317,7 @@ def full_affinity_of(model, X, y=None):
         return g.compute_affinity(Xa, y)
 
 
-def record_fit(model, X, y=None, decorated=False, direction_check=None, ids="column"):
+def record_fit(model, X, y=None, decorated=False, direction_check=None, ids="match"):
     """Run model.fit(X, y) under the recorder; returns (events, exception or None)."""
     n = len(X)
     try:
